@@ -279,6 +279,9 @@ class SimStreamWriter:
 
     async def wait_closed(self):
         await asyncio.sleep(0)
+        if self.broken is not None:
+            # like asyncio's StreamWriter: the close waiter carries the exception the connection died with
+            raise ConnectionResetError('Connection lost')
 
     def get_extra_info(self, name, default=None):
         return default
